@@ -47,42 +47,6 @@ class Strand:
         return n
 
 
-_undef_memo = {}
-
-
-def has_undef_leaf(e):
-    """does an uninitialised-memory symbol occur in a VALUE position of e (if-then-else conditions are not looked at)?"""
-    if isinstance(e, int): return False
-    i = e.get_id()
-    r = _undef_memo.get(i)
-    if r is not None: return r
-    if z3.is_const(e):
-        r = e.decl().kind() == z3.Z3_OP_UNINTERPRETED and e.decl().name().startswith('undef_')
-    elif z3.is_app_of(e, z3.Z3_OP_ITE):
-        r = has_undef_leaf(e.arg(1)) or has_undef_leaf(e.arg(2))
-    else:
-        r = any(has_undef_leaf(c) for c in e.children())
-    if len(_undef_memo) > 2000000: _undef_memo.clear()
-    _undef_memo[i] = r
-    return r
-
-
-def find_ite(e):
-    """some if-then-else of bit-vector sort inside e (None if there is none)"""
-    seen = set()
-    stack = [e]
-    while stack:
-        x = stack.pop()
-        i = x.get_id()
-        if i in seen: continue
-        seen.add(i)
-        if z3.is_app_of(x, z3.Z3_OP_ITE) and z3.is_bv(x):
-            if has_undef_leaf(x): return x
-            continue
-        stack.extend(x.children())
-    return None
-
-
 def rpo_of(fn):
     succ = {}
     for b in fn.blocks:
@@ -187,49 +151,28 @@ class DagRun(irsym.ThreadRun):
 
     # ------------------------------------------------------------------ value helpers
     def possible(s, v, what, site):
-        """finite list of concrete values a (pointer-like) term can take, each with its condition. An if-then-else is taken apart branch by
-        branch, so that an uninitialised (never written) alternative is reported under ITS condition only."""
+        """finite list of concrete values a (pointer-like) term can take, each with its condition"""
         if is_c(v): return [(v, TRUE)]
         v = simp(v)
         if is_c(v): return [(v, TRUE)]
-        out = {}
-        def add(c, cond):
-            if z3.is_false(cond): return
-            out[c] = g_or(out.get(c, FALSE), cond)
-        def rec(x, cond, depth):
-            if is_c(x): add(x, cond); return
-            if z3.is_bv_value(x): add(x.as_long(), cond); return
-            if z3.is_app_of(x, z3.Z3_OP_ITE) and depth < 60 and has_undef_leaf(x):
-                c = x.arg(0)
-                rec(x.arg(1), g_and(cond, c), depth + 1)
-                rec(x.arg(2), g_and(cond, z3.simplify(z3.Not(c))), depth + 1)
-                return
-            has_undef = has_undef_leaf(x)
-            if has_undef and depth < 60:
-                # an if-then-else with an uninitialised alternative below arithmetic (pointer + offset): lift it
-                t = find_ite(x)
-                if t is not None:
-                    c = t.arg(0)
-                    rec(simp(z3.substitute(x, (t, t.arg(1)))), g_and(cond, c), depth + 1)
-                    rec(simp(z3.substitute(x, (t, t.arg(2)))), g_and(cond, z3.simplify(z3.Not(c))), depth + 1)
-                    return
-            if has_undef:
-                # uninitialised private memory: transient while the sharing fixpoint is not reached, a finding afterwards
-                if s.feasible(g_and(s.st.guard, cond)):
-                    s.fail('memory: uninitialised value used as %s at %s' % (what, site), cond)
-                return
-            vals = s.enum_values(x)
-            if vals is None:
-                raise Unsupported('cannot enumerate the values of %s %s at %s' % (what, str(x)[:200], site))
-            for c in sorted(vals):
-                add(c, g_and(cond, z3.simplify(x == z3.BitVecVal(c, x.size()))))
-        rec(v, TRUE, 0)
-        return sorted(out.items())
+        if any(x.decl().name().startswith('undef_') for x in z3_vars(v)):
+            # uninitialised private memory: transient while the sharing fixpoint is not reached, a finding afterwards
+            s.fail('memory: uninitialised value used as %s at %s' % (what, site))
+            return []
+        vals = s.enum_values(v)
+        if vals is None:
+            raise Unsupported('cannot enumerate the values of %s %s at %s' % (what, str(v)[:200], site))
+        out = []
+        for c in sorted(vals):
+            cond = z3.simplify(v == z3.BitVecVal(c, v.size()))
+            if z3.is_false(cond): continue
+            out.append((c, cond))
+        return out
 
     def enum_values(s, v, depth=0, memo=None):
         if is_c(v): return {v}
         if z3.is_bv_value(v): return {v.as_long()}
-        if memo is None: memo = s.__dict__.setdefault('_enum_memo', {})      # value sets of a term are fixed within one pass
+        if memo is None: memo = {}
         vid = v.get_id()
         if vid in memo: return memo[vid]
         r = s.enum_values1(v, depth, memo)
@@ -436,15 +379,11 @@ class DagRun(irsym.ThreadRun):
             s.st.guard = g_and(saved, cond)
             v = s.load1(a, width, order, site, o)
             res = v if res is None else s.ite(cond, v, res, width * 8)
-        # invalid / uninitialised alternatives end the execution there: continue only under the valid targets
-        s.st.guard = g_and(saved, s.cover(tg))
+        s.st.guard = saved
+        if len(tg) < len(s.possible(p, 'pointer', site)):
+            # the remaining targets are invalid: they end the execution there
+            s.st.guard = g_and(saved, z3.Or(*[c for (_, c, _) in tg]))
         return res
-
-    @staticmethod
-    def cover(tg):
-        cs = [c for (_, c, _) in tg]
-        if any(z3.is_true(c) for c in cs): return TRUE
-        return z3.simplify(z3.Or(*cs)) if len(cs) > 1 else cs[0]
 
     def load1(s, addr, width, order, site, o):
         if s.mode != 'private': s.sc.note_access(o, s.tid)
@@ -480,7 +419,9 @@ class DagRun(irsym.ThreadRun):
                 e.wval = val
                 s.note_write(e)
                 s.note_cand(a, width, val)
-        s.st.guard = g_and(saved, s.cover(tg))
+        s.st.guard = saved
+        if len(tg) < len(s.possible(p, 'pointer', site)):
+            s.st.guard = g_and(saved, z3.Or(*[c for (_, c, _) in tg]))
 
     def rmw(s, p, width, op, operand, order, site):
         bits = width * 8
@@ -508,7 +449,7 @@ class DagRun(irsym.ThreadRun):
                 s.note_write(e)
                 s.note_cand(a, width, e.wval)
             res = old if res is None else s.ite(cond, old, res, bits)
-        s.st.guard = g_and(saved, s.cover(tg))
+        s.st.guard = saved
         return res
 
     def cmpxchg(s, p, width, expected, new, order, fail_order, site):
@@ -536,7 +477,7 @@ class DagRun(irsym.ThreadRun):
             ok = simp(z3.If(eq, z3.BitVecVal(1, 1), z3.BitVecVal(0, 1)))
             res = old if res is None else s.ite(cond, old, res, bits)
             okres = ok if okres is None else s.ite(cond, ok, okres, 1)
-        s.st.guard = g_and(saved, s.cover(tg))
+        s.st.guard = saved
         return res, okres
 
     def fence(s, order, site):
@@ -993,10 +934,6 @@ class DagRun(irsym.ThreadRun):
         if name in ('_ZSt9terminatev', '__cxa_pure_virtual', 'abort'):
             s.fail('rt: std::terminate/abort reached at %s' % site)
             raise PathEnd('terminate')
-        if name in ('__cxa_throw', '__cxa_rethrow', '_Unwind_Resume', '__cxa_begin_catch', '_ZSt17rethrow_exceptionNSt15__exception_ptr13exception_ptrE'):
-            # C++ throw / catch is not modelled in E2: the strand ends here and the solver is asked whether it can be reached at all
-            s.asserts.append(([s.st.guard], 'UNSUP', 'unsupported: %s reached in %s' % (name, s.callstack[-1][:60] if s.callstack else '?'), s.cur_pos()))
-            raise PathEnd('unsupported-throw')
         return super().external(fr, name, I, site)
 
 
